@@ -601,6 +601,12 @@ pub fn run_history(cfg: &WorldCfg, events: &[Ev], shutdown_window: Duration) -> 
                         close_result = Some(r.clone());
                         fail!("shutdown_finished_while_handler_running", step, json!({"close() pending while handlers run": running}), json!({"close_returned": format!("{r:?}")}));
                     }
+                    // a wait_for_shutdown() waiter is released only when shutdown has finished
+                    for (wi, w) in waiters.iter().enumerate() {
+                        if let Ok(r) = w.try_recv() {
+                            fail!("waiter_released_while_handler_running", step, json!({"waiters pending while handlers run": running}), json!({"waiter": wi, "result": format!("{r:?}")}));
+                        }
+                    }
                 } else if let Ok(r) = rx.try_recv() {
                     close_result = Some(r);
                 }
